@@ -56,6 +56,18 @@ CLAIMED = {
  "C20": ("freshness (alias) path analysis of every value stored into a Search's result field; who-may-write analysis of index entries; id-counter store check; structural dedup check",
          "Decides that a Search never holds a slice aliasing the live index on any path of any search entry (so later writes cannot change what it denotes), that index entries are immutable once published, that object ids are never reused at run time, and that the union dedups by object id. Nothing structural is left undecided; the decoder's counter arithmetic is not decided.",
          "Trusts go/ssa and the provenance tags (Live is closed under loads and sub-slicing; make/copy/append-to-fresh are fresh).", "DESIGN.md 4 C20"),
+ "C13": ("structural SSA checks of the order-carrying chain (unconditional appends, cursor stepping under the reverse flag, append/limit pairing, limit>0 guard, One's constant limit, identity mapping of AssignIndex) and who-may-call sort/rand = empty",
+         "Decides idiom-bound necessary conditions of result ordering: no hop between the index slice and the collected objects filters or reorders, nothing in the package sorts or shuffles, reversed() and next() step the cursor as specified and the collector flips the iterator exactly under the reverse flag before iterating, every appended object costs exactly one unit of limit under a limit>0 guard, One sets the limit to 1 and returns element 0 or the no-object error, AssignIndex maps element i to element i of a target of the same length. That the index slice itself is sorted (insert position arithmetic) and tie order are not decided.",
+         "Trusts go/ssa; the rules recognise the loop idioms the package uses today (range loops, next() protocol): a rewrite outside these shapes is reported, not silently accepted.", "DESIGN.md 4 C13"),
+ "C16": ("effect-order path analysis (case transforms between Transform and Validate/index/store; evaluators after value canonicalisation), finite evaluation of Transformer() and of the struct-tag parser over all tag words, guard dominance of the two case mappings",
+         "Decides: on every insertion path the schema case transforms run after Transform and before Validate, indexing, caching and writing; both search evaluators are only called after the search value went through the field's case transform, and refinements only go through that dispatcher; Transformer() is upper||lower and the transformer list filters all descriptors by it; each tag word sets exactly the constraint with the same JSON key (unique also index); ToUpper/ToLower are each guarded by their own flag. Unicode idempotence of the standard mappings is not decided.",
+         "Trusts go/ssa, the effect tables and the finite evaluator (strings.Split on a single tag word is modelled).", "DESIGN.md 4 C16"),
+ "C18": ("format-descriptor extraction from the type-checked source compared with the descriptor frozen from the pinned release; static conformance of a corpus written by the pinned release (parsed as plain JSON/gzip) against the current descriptor; codec sibling agreement",
+         "Decides that everything that determines the on-disk layout in the source is unchanged with respect to the pinned release: JSON keys/kinds of all persisted types on writer and reader side, index tuple layout, schema file name, default extension, compressed suffix, uuid pattern, file-name composition, 'object file = json.Marshal(object)', gzip iff compress; and that 4 collections written by the pinned release conform to the CURRENT reader tables and naming (keys known, required keys present, tuples match casts, one <uuid><ext>[.gz] file per indexed object). That legacy data decodes to the same values and searches identically is not decided (needs execution).",
+         "Trusts go/types struct-tag handling re-implemented per encoding/json's documented rules; the golden files under /verif/golden.", "DESIGN.md 4 C18"),
+ "C19": ("panic-site inventory over the functions reachable from the API and the decoders: explicit panics with a disposition table, unchecked type assertions and compiler-unproven bounds (gc's bounds-check-elimination listing as the oracle) on the data path with dominating-guard detection, nil tests of decoded pointers, error-before-result path analysis of Search methods",
+         "Decides that no panic-capable construct on the data path (decoded schema content, directory entries, search arguments) is unguarded: every explicit panic reachable from the API is documented misuse, an internal invariant with a stated reason, vetted by another rule, or one of three known findings; every non-comma-ok type assertion on the data path is preceded by a checked one or vetted; every index/slice the compiler cannot prove in range is dominated by a length test of the same container or vetted; decoded nullable pointers are nil-tested; Search methods look at the search's error before its results. Hangs and panics that depend only on the bisection's internal arithmetic are not decided.",
+         "Trusts go/ssa, the gc compiler's BCE pass (go build -gcflags=-d=ssa/check_bce/debug=1) and the disposition tables in checker/rules_panic.go (keyed by function; a new site is a violation).", "DESIGN.md 4 C19"),
 }
 
 NOT_BUILT = "check not built yet in this round (planned, see DESIGN.md section 4)"
